@@ -690,7 +690,7 @@ def name_fun(ids):
 
 
 def views_expr(v, code, term, L, C, opcodes_text, asm_text, idx_ast, keys_ast, idx_err, keys_err, idx_jump, keys_jump):
-    nl = lambda xs: "[" + "; ".join(f"{x}%nat" for x in xs) + "]"  # noqa
+    nl = lambda xs: "(map Z.to_nat [" + "; ".join(str(x) for x in xs) + "])"  # noqa
     zl_ = lambda xs: "[" + "; ".join(str(x) for x in xs) + "]"  # noqa
     return (f"vcheck {v} {coq_bytes(code)} {term} {name_fun(L.ids)} {name_fun(C.ids)} {coq_text(opcodes_text)} "
             f"{coq_text(asm_text)} {nl(idx_ast)} {zl_(keys_ast)} {nl(idx_err)} {zl_(keys_err)} {nl(idx_jump)} {zl_(keys_jump)}")
